@@ -143,6 +143,25 @@ def wl_bloom(ctx, rng, case):
             s2 = cls.frombytes(data, **bl.kw_hash(hf))
             (t.add(k2), s2.add(k2))
             ctx.check(bytes(t) == bytes(s2), f"{what}: after one more add the reload (via {lname}) diverges from the original")
+        # ---- the SAME object goes on and is exported again (whatever an export remembers must follow later changes)
+        out2 = Counter()
+        for cycle in range(rng.randint(1, 2)):
+            for _ in range(rng.randint(1, 5)):
+                k2 = rng.choice(keys)
+                if counting and out2[k2] and rng.random() < 0.3:
+                    s.remove(k2, 1)
+                    out2[k2] -= 1
+                elif counting:
+                    s.add(k2, 2)
+                    out2[k2] += 2
+                else:
+                    s.add(k2)
+            if s.elements_added < 0:
+                break
+            chan = rng.choice(["bytes", "path", "fileobj", "hex"])
+            t = cls(hex_string=s.export_hex(), **bl.kw_hash(hf)) if chan == "hex" else cls.frombytes(bl.export_bytes_via(s, chan, sc), **bl.kw_hash(hf))
+            compare(ctx, s, t, BLOOM_ACC, MEMBER_Q, probe, f"{what}, export #{cycle + 2} of the same object (via {chan})")
+            ctx.count("repeated_exports_of_one_object")
         case.nontrivial = True
     finally:
         sc.cleanup()
@@ -358,6 +377,13 @@ def wl_sketch(ctx, rng, case):
             s2 = cls.frombytes(data, **extra, **bl.kw_hash(hf))
             r1, r2 = t.add(k2, 2), s2.add(k2, 2)
             ctx.check(bytes(t) == bytes(s2) and r1 == r2, f"{cls_name}: the reload (via {lname}) diverges from the original when the history continues", r1=r1, r2=r2)
+        for cycle in range(rng.randint(1, 2)):
+            for _ in range(rng.randint(1, 5)):
+                s.add(rng.choice(keys), rng.randint(1, 3)) if cls_name == "HeavyHitters" or rng.random() < 0.7 else s.remove(rng.choice(keys), 1)
+            chan = rng.choice(["bytes", "path", "fileobj"])
+            t = cls.frombytes(bl.export_bytes_via(s, chan, sc), **extra, **bl.kw_hash(hf))
+            compare(ctx, s, t, acc, [("check", lambda o, k: o.check(k)), ("in", lambda o, k: k in o)], keys + ["never-added"], f"{cls_name}, export #{cycle + 2} of the same object (via {chan})")
+            ctx.count("repeated_exports_of_one_object")
         case.nontrivial = True
     finally:
         sc.cleanup()
